@@ -14,8 +14,8 @@ namespace {
 
 using sysinst::Sys;
 
-enum Kind : int { Write, ReadCmd, HostSend, HostSetSem, DmaStart, NKIND };
-const char* kKindName[] = {"write", "readcmd", "hostsend", "hostsetsem", "dmastart"};
+enum Kind : int { Write, ReadCmd, HostSend, HostSetSem, DmaStart, HostQuery, NKIND };
+const char* kKindName[] = {"write", "readcmd", "hostsend", "hostsetsem", "dmastart", "hostquery"};
 struct Op {
     int kind = Write;
     uint16_t off = 0, v = 0;
@@ -75,7 +75,7 @@ rc::Gen<Op> genOp() {
     auto valGen = gen::weightedOneOf<uint16_t>({{3, gen::element<uint16_t>(0, 0xFFFF, 1, 0x8000, 0x40C0, 0x0400, 0x0600, 0x00FF, 7, 8, 9)},
                                                 {2, gen::map(vf::range<int>(0, 16), [](int b) { return (uint16_t)(1u << b); })},
                                                 {4, vf::u16b()}});
-    return gen::map(gen::tuple(gen::weightedElement<int>({{30, Write}, {2, ReadCmd}, {2, HostSend}, {2, HostSetSem}, {1, DmaStart}}), offGen, valGen,
+    return gen::map(gen::tuple(gen::weightedElement<int>({{30, Write}, {2, ReadCmd}, {2, HostSend}, {2, HostSetSem}, {1, DmaStart}, {2, HostQuery}}), offGen, valGen,
                                gen::weightedOneOf<uint16_t>({{3, gen::just<uint16_t>(0)}, {3, gen::just<uint16_t>(1)}, {2, vf::range<uint16_t>(2, 64)}}),
                                vf::range<uint16_t>(0, 64)),
                     [](std::tuple<int, uint16_t, uint16_t, uint16_t, uint16_t> t) {
@@ -190,6 +190,33 @@ vf::Result check(const Case& cs) {
                     m.pending |= 0x4000;
                 else if (m.sem_flag() && was) // a repeated interrupt while the flag stays set is permitted, not required
                     m.pending = (m.pending & ~0x4000) | (s.t->MMIORead(0x200) & 0x4000);
+                break;
+            }
+            case HostQuery: { // host-side getters of the facade: they return channel 0's address words / an AHBM field and change nothing
+                trace += "hquery" + std::to_string(op.off % 5) + " ";
+                uint16_t got = 0, want = 0;
+                switch (op.off % 5) {
+                case 0:
+                    got = s.t->DMAChan0GetSrcHigh();
+                    want = m.dma[0][(0x1C2 - 0x1C0) / 2];
+                    break;
+                case 1:
+                    got = s.t->DMAChan0GetDstHigh();
+                    want = m.dma[0][(0x1C6 - 0x1C0) / 2];
+                    break;
+                case 2:
+                    got = want = s.t->AHBMGetUnitSize((uint16_t)(op.v % 3));
+                    break;
+                case 3:
+                    got = want = s.t->AHBMGetDirection((uint16_t)(op.v % 3));
+                    break;
+                default:
+                    got = want = s.t->AHBMGetDmaChannel((uint16_t)(op.v % 3));
+                    break;
+                }
+                if (got != want)
+                    return fail("C12:hostquery:value", "host query " + std::to_string(op.off % 5) + " returned " + vf::hex(got) + " instead of " + vf::hex(want), i);
+                vf::klass("host-side facade query between register accesses");
                 break;
             }
             case DmaStart: {
